@@ -109,7 +109,8 @@ Aux:
 					if len(args) <= ai {
 						panic(fmt.Sprintf("Missing value for key :%s.", sym))
 					}
-					if lam.isKeyParam(string(sym)) {
+					if lam.isKeyParam(string(sym)) && !boundHere(ss, string(sym)) {
+						// When a keyword is repeated the first one wins.
 						ss.Let(sym, args[ai])
 					}
 					ai++
